@@ -114,6 +114,10 @@ func (ex *Exec) callValue(st *State, fc *FnCtx, c *ssa.CallCommon, fnv Val, args
 			ex.applyContract(st, fc, fct, nil, c.Signature(), nil, args, in, k)
 			return
 		}
+		if pct := ex.paramContractFor(fc, c.Value); pct != nil {
+			ex.applyContract(st, fc, pct, nil, c.Signature(), nil, args, in, k)
+			return
+		}
 		ex.note("dynamic call through unknown function value in %s: heap havoc", fc.fn.Name())
 		ex.havocHeap(st)
 		ex.bumpAlloc(st)
@@ -158,6 +162,29 @@ func (ex *Exec) fieldContractFor(v ssa.Value) *Contract {
 	return ex.cs.Field[key]
 }
 
+// paramContractFor: a call through a func-typed parameter uses the contract
+// declared with `paramcontract <func>.<param>` (an assumption on callers'
+// callbacks plus obligations at the call site).
+func (ex *Exec) paramContractFor(fc *FnCtx, v ssa.Value) *Contract {
+	name := ""
+	switch x := v.(type) {
+	case *ssa.Parameter:
+		name = x.Name()
+	case *ssa.UnOp:
+		if a, ok := x.X.(*ssa.Alloc); ok {
+			for _, p := range fc.fn.Params {
+				if p.Name() == a.Comment {
+					name = a.Comment
+				}
+			}
+		}
+	}
+	if name == "" {
+		return nil
+	}
+	return ex.cs.Field[fc.fn.String()+"."+name]
+}
+
 // staticDispatch resolves an invoke whose receiver's dynamic type is syntactically known.
 func (ex *Exec) staticDispatch(recv Term, c *ssa.CallCommon) *ssa.Function {
 	var tag int
@@ -192,7 +219,31 @@ func (ex *Exec) havocCall(st *State, ms *ModSet, callee string) {
 	if ms.all {
 		ex.note("call to %s havocs the whole heap (%s)", shortFn(callee), ms.why)
 	}
+	old := st.heap.clone()
 	ex.applyModSet(st, ms, nil)
+	// maps local to this function cannot be reached by the callee
+	for _, lm := range st.localMaps {
+		for _, c := range []struct {
+			name string
+			arr  func(h *HeapView) Term
+		}{
+			{compMapPT(lm.k, lm.v), func(h *HeapView) Term { return ex.mapPComp(h, lm.k, lm.v) }},
+			{compMapVT(lm.k, lm.v), func(h *HeapView) Term { return ex.mapVComp(h, lm.k, lm.v) }},
+			{compMapL(), func(h *HeapView) Term { return ex.mapLComp(h) }},
+		} {
+			if !ms.all {
+				if _, hit := ms.comps[c.name]; !hit {
+					continue
+				}
+			}
+			nw := c.arr(st.heap)
+			ow := c.arr(old)
+			if nw.S == ow.S {
+				continue
+			}
+			st.heap.m[c.name] = ex.define(st, "hl", store(nw, lm.ref, sel(ow, lm.ref)))
+		}
+	}
 	ex.bumpAlloc(st)
 }
 
@@ -469,6 +520,21 @@ func (ex *Exec) applyContract(st *State, fc *FnCtx, ct *Contract, fn *ssa.Functi
 		}
 	} else {
 		ex.havocCall(st, ms, ct.Func)
+		if ms.all {
+			// protected ghost components survive a whole-heap havoc unless the
+			// contract names them
+			for _, cl := range ct.Modifies {
+				for _, part := range splitTop(cl.Text) {
+					part = strings.TrimSpace(part)
+					if i := strings.Index(part, "("); i > 0 && ex.cs.Protected[part[:i]] {
+						g := part[:i]
+						c := compGhost(g)
+						cur := ex.comp(st.heap, c, ex.cs.Ghost[g])
+						st.heap.m[c] = ex.fresh("hg", cur.So)
+					}
+				}
+			}
+		}
 	}
 	if ct.Pure {
 		// a pure callee stores nothing into the heap: references loaded later
